@@ -159,7 +159,7 @@ def build_scenarios(ctx, shapes, scripts, rng, n, forced):
     for i, sh in enumerate(picks):
         sid = i + 1
         f = forced[i] if i < len(forced) else {}
-        fault = f.get("fault", rng.choice(["none"] * 6))
+        fault = f.get("fault", rng.choice(["none"] * 12 + ([] if ctx.quick() else ["tcp", "udp", "both"])))
         rt_ms = f.get("rt_ms", rng.choice([0, 0, RT_MS]))
         clients, conc = [], []
 
@@ -172,7 +172,8 @@ def build_scenarios(ctx, shapes, scripts, rng, n, forced):
                                 delay_us=rng.choice([0, 0, 100, 500, 2000]) if phase == "race" else 0))
         for nm in sh["names"]:
             add(nm, "pre")
-        if fault != "none":
+        quick_stop = f.get("quick_stop", fault != "none" and rng.random() < 0.3)
+        if fault != "none" and not quick_stop:
             for _ in range(rng.choice([1, 2])):
                 add(rng.choice(["close1", "close2", "split", "halfclose"]), "post")
         for _ in range(rng.choice([0, 1, 2])):
@@ -190,7 +191,7 @@ def build_scenarios(ctx, shapes, scripts, rng, n, forced):
             g += 1
             addd("pre", g, rng.choice([["x", "LF"], ["x", "LF", "y", "LF"], ["x", "LF", "y"], ["x", "CR", "LF", "y", "CR"]]))
         gpost = []
-        if fault in ("udp", "both"):
+        if fault in ("udp", "both") and not quick_stop:
             g += 1
             gpost.append(g)
             for _ in range(40):
@@ -201,7 +202,8 @@ def build_scenarios(ctx, shapes, scripts, rng, n, forced):
         g += 1
         addd("late", g, ["x", "LF"])
         sc = dict(id=sid, rt_ms=rt_ms, handler="plain", clients=clients, dgrams=dg, fault=fault,
-                  block=f.get("block", fault != "none" and rng.random() < 0.5), stop_delay_us=rng.choice([0, 0, 100, 500, 2000, 20000]))
+                  block=f.get("block", fault != "none" and rng.random() < 0.5), stop_delay_us=rng.choice([0, 0, 100, 500, 2000, 20000]) if not quick_stop else rng.choice([0, 0, 20, 50, 100, 200, 500]),
+                  quick_stop=quick_stop)
         scs.append(sc)
         hists[sid] = dict(ev="hist", id=sid, rt_us=rt_ms * 1000, fault=fault,
                           sym=[k["sym"] for k in conc], frag=[k["frag"] for k in conc], cum=[k["cum"] for k in conc],
@@ -296,13 +298,13 @@ def validate(ctx, blocks, tag="tr", own_dir=None):
     """returns (number accepted, list of (block, idx) rejected)"""
     blocks = list(blocks)
     rej = []
-    for rnd in range(40):
+    for rnd in range(200):
         flat = [r for b in blocks for r in b]
         if not flat:
             break
         f = ctx.write_ndjson("xl_trace_%s.ndjson" % tag, flat)
         ok, matched, res = ctx.validate_traces("ListenerTrace", "ListenerTrace.cfg", f, len(flat), len(blocks),
-                                               tag="%s%d" % (tag, rnd), timeout=1800, own_dir=own_dir)
+                                               tag="%s%d" % (tag, rnd), timeout=1800, own_dir=own_dir, heap="2g")
         if ok:
             break
         if res["violated"] == "RunInv":
@@ -319,8 +321,19 @@ def validate(ctx, blocks, tag="tr", own_dir=None):
         else:
             raise Machinery("matched prefix beyond the trace")
     else:
-        raise Machinery("more than 40 rejected scenarios")
+        raise Machinery("more than 200 rejected scenarios in one chunk")
     return len(blocks), rej
+
+
+def validate_all(ctx, blocks, chunks):
+    """the scenarios are independent: validate them in `chunks` concurrent TLC runs (a rejection costs one more
+    run of its chunk only)"""
+    from concurrent.futures import ThreadPoolExecutor
+    parts = [blocks[i::chunks] for i in range(chunks)]
+    parts = [p for p in parts if p]
+    with ThreadPoolExecutor(max_workers=len(parts)) as ex:
+        res = list(ex.map(lambda ip: validate(ctx, ip[1], tag="tr%d_" % ip[0], own_dir="spec_tr%d" % ip[0]), enumerate(parts)))
+    return sum(n for n, _ in res), [x for _, rj in res for x in rj]
 
 
 def run(ctx):
@@ -337,10 +350,13 @@ def run(ctx):
     for sh in shapes2:
         for nm, s in zip(sh["names"], sh["scripts"]):
             scripts[nm] = s
-    forced = [dict(fault="tcp", block=False, rt_ms=0), dict(fault="none", rt_ms=RT_MS), dict(fault="none", rt_ms=0)]
+    forced = [dict(fault="both", block=False, rt_ms=0, quick_stop=False), dict(fault="tcp", block=False, rt_ms=RT_MS, quick_stop=False),
+              dict(fault="none", rt_ms=RT_MS), dict(fault="none", rt_ms=0)]
+    forced += [dict(fault=rng.choice(["tcp", "udp", "both"]), block=False, quick_stop=True) for _ in range(ctx.pick(3, 40))]
     if not q:
-        forced += [dict(fault="udp", block=False), dict(fault="both", block=True), dict(fault="tcp", block=True, rt_ms=RT_MS),
-                   dict(fault="udp", block=True), dict(fault="tcp", block=True)]
+        forced += [dict(fault="udp", block=False, quick_stop=False), dict(fault="both", block=True, quick_stop=False),
+                   dict(fault="tcp", block=True, rt_ms=RT_MS, quick_stop=False), dict(fault="udp", block=True, quick_stop=False),
+                   dict(fault="tcp", block=True, quick_stop=False)]
     n = ctx.pick(60, 600)
     scs, hists = build_scenarios(ctx, shapes, scripts, rng, n, forced)
     sf = ctx.write_ndjson("xl_scen.ndjson", scs)
@@ -359,7 +375,7 @@ def run(ctx):
     if len(blocks) != len(scs):
         raise Machinery("driver recorded %d scenarios of %d" % (len(blocks), len(scs)))
     # 4. verdict by TLC
-    nacc, rej = validate(ctx, blocks)
+    nacc, rej = validate_all(ctx, blocks, ctx.pick(3, 6))
     for b, idx in rej:
         sig = classify(b, idx)
         h = b[0]
@@ -369,7 +385,7 @@ def run(ctx):
             dict(scenario=sc, events=b[1:idx + 3]))
     # binding self-test on accepted scenarios: corrupted records must be rejected at that line
     good = [b for b in blocks if not any(b is rb for rb, _ in rej)]
-    selftest(ctx, good)
+    selftest(ctx, good, strict=not ctx.violations)      # (a violation is reported anyway; do not mask it by exit 2)
     # coverage
     cov = ctx.cov
     evs = [r for b in blocks for r in b]
@@ -396,7 +412,7 @@ def run(ctx):
     cov["connections_shut_down_after_receiving_data"] = shut_with_data
     cov["distinct_nontrivial"] = len({(tuple(c["name"] + c["phase"] for c in scs[b[0]["id"] - 1]["clients"]), scs[b[0]["id"] - 1]["rt_ms"],
                                        scs[b[0]["id"] - 1]["fault"]) for b in blocks if any(r["ev"] == "disp" for r in b)})
-    if cov["events"]["dispatches"] < n or cov["events"]["reads_failed_by_shutdown"] < 5 or shut_with_data < 1:
+    if not ctx.violations and not rej and (cov["events"]["dispatches"] < n or cov["events"]["reads_failed_by_shutdown"] < 5 or shut_with_data < 1):
         raise Machinery("vacuous run: %s" % json.dumps(cov["events"]))
     cov["rule"] = ("evaluations = recorded events of the real listener decided by TLC (ListenerTrace); scenarios = TLC-generated "
                    "assignments of client scripts (%d scripts) to 2%s connections + seeded post-fault / racing / late clients, "
@@ -421,7 +437,7 @@ def run(ctx):
                            "checks/xlisten.py", "kernel loopback TCP/UDP"]
 
 
-def selftest(ctx, good):
+def selftest(ctx, good, strict=True):
     """corrupted copies of accepted scenarios must be rejected by TLC, at (or before) the corrupted line"""
     from concurrent.futures import ThreadPoolExecutor
     jobs = []        # (name, corrupted scenario, latest line at which it must be rejected)
@@ -462,7 +478,7 @@ def selftest(ctx, good):
             jobs.append(("running", b[:i] + b[i + 1:], s_ - 1))
             break
     names = [j[0] for j in jobs]
-    if set(names) != {"drop", "dup", "late", "stopfalse", "earlytimeout", "running"}:
+    if set(names) != {"drop", "dup", "late", "stopfalse", "earlytimeout", "running"} and strict:
         raise Machinery("binding self-test: the accepted scenarios do not offer every probe (%s)" % names)
     if ctx.quick():
         jobs = [j for j in jobs if j[0] in ("drop", "late", "stopfalse", "earlytimeout")]
